@@ -207,5 +207,122 @@ def run(ctx: Ctx):
     report_op(ctx, "R09.a", HASH)
     ctx.rule("R09.b", "no function of the package writes process-global state (attributes of module-level functions/classes/modules, module-level containers, `global`)", floor=50)
     global_mutations(ctx, "R09.b")
+    ctx.rule("R09.c", "no public function of the package modifies a caller-supplied argument in place (a list of options passed twice gives the same result twice)", floor=30)
+    argument_mutations(ctx, "R09.c")
     for rel, why in OUT_OF_SCOPE.items():
         ctx.notes.append(f"out of scope for the order analysis: {rel}: {why}")
+
+
+MUTATORS = {"append", "extend", "insert", "remove", "pop", "clear", "sort", "reverse", "add", "discard", "update", "setdefault", "popitem", "difference_update", "intersection_update", "symmetric_difference_update"}
+# parameters that are *meant* to be filled by the callee (the caller hands in a fresh object): one line of reason each
+OUT_PARAMS: dict[tuple[str, str], str] = {}
+
+
+def argument_mutations(ctx: Ctx, rule: str):
+    """For every function: the set of its parameters whose object it modifies in place - directly (method call,
+    subscript / attribute store, del, augmented assignment on an alias that was never re-bound) or by handing it to a
+    package function that does.  A *public* function with a non-empty set changes what its caller passed in: the next
+    call with the same object (the same stiff_states list, the same values dict) starts from different data."""
+    from sa.sm import walk_no_nested
+
+    sm = ctx.sm
+    funcs = [f for f in sm.all_funcs() if not f.rel.endswith(("myokit.py",)) or True]
+    direct: dict = {}
+    passes: dict = {}
+
+    def analyse(f):
+        params = [p for p in f.params if p not in ("self", "cls")]
+        alias = {p: p for p in params}  # local name -> parameter it still refers to
+        # names that are re-bound to something that is not a parameter stop being aliases at their first re-binding;
+        # conservative in the other direction: a name bound to a fresh value before any use is not an alias at all
+        stmts = list(walk_no_nested(f.node))
+        rebinds: dict[str, list] = {}
+        for nd in stmts:
+            if isinstance(nd, ast.Assign):
+                for t in nd.targets:
+                    if isinstance(t, ast.Name):
+                        rebinds.setdefault(t.id, []).append(nd)
+            elif isinstance(nd, ast.AnnAssign) and isinstance(nd.target, ast.Name) and nd.value is not None:
+                rebinds.setdefault(nd.target.id, []).append(nd)
+        for name, asg in rebinds.items():
+            vals = [a.value for a in asg]
+            if name in params:
+                # `if p is None: p = []` keeps the caller's object on the other path: still an alias.  A parameter
+                # that is re-bound unconditionally at the top (p = list(p)) is a copy from then on.
+                first = asg[0]
+                top = first in f.node.body
+                if top and not (isinstance(first.value, ast.Name) and first.value.id == name) and first.lineno <= min([n.lineno for n in stmts if isinstance(n, ast.Name) and n.id == name and isinstance(n.ctx, ast.Load) and not any(n in ast.walk(a.value) for a in asg[:1])] or [10**9]):
+                    alias.pop(name, None)
+                continue
+            if all(isinstance(v, ast.Name) and v.id in params for v in vals):
+                alias[name] = vals[0].id
+        mut: dict[str, ast.AST] = {}
+        handed: list = []
+
+        def root(n):
+            while isinstance(n, (ast.Subscript, ast.Attribute)):
+                n = n.value
+            return n.id if isinstance(n, ast.Name) else None
+
+        for nd in stmts:
+            if isinstance(nd, ast.Call) and isinstance(nd.func, ast.Attribute) and nd.func.attr in MUTATORS and isinstance(nd.func.value, ast.Name) and nd.func.value.id in alias:
+                mut.setdefault(alias[nd.func.value.id], nd)
+            elif isinstance(nd, (ast.Assign, ast.AugAssign, ast.AnnAssign, ast.Delete)):
+                tgts = nd.targets if isinstance(nd, (ast.Assign, ast.Delete)) else [nd.target]
+                for t in tgts:
+                    if isinstance(t, ast.Subscript) and isinstance(t.value, ast.Name) and t.value.id in alias:
+                        mut.setdefault(alias[t.value.id], nd)
+                    elif isinstance(nd, ast.AugAssign) and isinstance(t, ast.Name) and t.id in alias and isinstance(nd.op, (ast.Add, ast.BitOr, ast.BitAnd, ast.Sub)) and False:
+                        pass
+            if isinstance(nd, ast.Call):
+                for i, a in enumerate(nd.args):
+                    if isinstance(a, ast.Name) and a.id in alias:
+                        handed.append((nd, i, None, alias[a.id]))
+                for k in nd.keywords:
+                    if k.arg and isinstance(k.value, ast.Name) and k.value.id in alias:
+                        handed.append((nd, None, k.arg, alias[k.value.id]))
+        direct[f] = mut
+        passes[f] = handed
+
+    for f in funcs:
+        analyse(f)
+    from sa import av as _av
+
+    A = _av.AV(sm)
+    summary = {f: dict(m) for f, m in direct.items()}
+    changed = True
+    rounds = 0
+    while changed and rounds < 6:
+        changed = False
+        rounds += 1
+        for f in funcs:
+            for call, i, kw, p in passes[f]:
+                if p in summary[f]:
+                    continue
+                try:
+                    callee = A._resolve(call.func, _av.Frame(f, f.rel, {}, 0, 0))
+                except Exception:
+                    callee = None
+                if callee is None or callee not in summary:
+                    continue
+                cps = [x for x in callee.params]
+                if cps and cps[0] in ("self", "cls") and isinstance(call.func, ast.Attribute):
+                    cps = cps[1:]
+                q = kw if kw is not None else (cps[i] if i is not None and i < len(cps) else None)
+                if q is not None and q in summary[callee]:
+                    summary[f][p] = call
+                    changed = True
+    n = 0
+    for f in funcs:
+        public = not f.name.startswith("_") or (f.name.startswith("__") and f.name.endswith("__"))
+        parts = f.qualname.split(".")
+        is_method = len(parts) == 2 and any(qn == parts[0] for (_rel, qn) in sm.classes)
+        if not public or not (len(parts) == 1 or is_method):
+            continue  # private helpers and nested functions are judged through the public functions that call them
+        n += 1
+        bad = {p: nd for p, nd in summary[f].items() if (f.rel.replace("src/gotranx/", ""), f"{f.qualname}:{p}") not in OUT_PARAMS}
+        if not bad:
+            ctx.ok(rule, f.key("arguments"), "no argument is modified in place", f.where())
+        for p, nd in bad.items():
+            ctx.fail(rule, f.key(f"argument::{p}"), f"{f.qualname} modifies its argument `{p}` in place (`{norm(nd)[:70]}`): the caller's object is changed, so a second call with the same object (the same list of options, the same dict) does not start from the same input - the result depends on the history of calls", f.where(nd))
+    ctx.extra["argument_mutation_functions"] = n
